@@ -36,7 +36,9 @@ vars == <<line, site, i, st, es, elems, best, amp, pkgr, trailc, res>>
 
 (* placements of a comment; Effective(site, kw) says where annotation kw takes effect *)
 Sites == {"typeDoc", "groupDoc", "specDoc", "funcDoc", "methodDoc", "fieldDocImm", "fieldDocPlain", "embeddedDocImm", "fieldLineImm",
-          "trailingType", "localType", "varDoc", "constDoc", "ifaceMethodDoc", "detachedDoc", "blockDoc", "blockSlashLine", "insideBody"}
+          "trailingType", "localType", "varDoc", "constDoc", "ifaceMethodDoc", "detachedDoc", "blockDoc", "blockSlashLine", "insideBody",
+          "groupSecondSpec",     \* the comment documents the *previous* spec of the same type (...) group
+          "afterDirectiveDoc"}   \* the comment trails the previous declaration; the item's own doc is a //go: directive only
 Effective(s, kw) ==
   CASE kw \in {"implements", "constructor", "immutable"} -> s \in {"typeDoc", "groupDoc", "specDoc"}
     [] kw \in {"testonly", "packageonly"} -> s \in {"typeDoc", "groupDoc", "specDoc", "funcDoc", "methodDoc"}
